@@ -185,6 +185,17 @@ def differential(c, focus, n_hist, backends, cfgs, weights=None, lengths=(4, 22)
             c.prop_fail('failed-call-changed-data:' + rq['op'],
                         'a failing %s call (%s) changed stored data on backend %s' % (rq['op'], resp, be),
                         {'backend': be, 'history': h[:i + 1], 'before': prev, 'after': after, 'response': resp})
+        # stored metadata is a MAP: one entry per (namespace, key), in the study record and in every trial
+        if rq['op'] in ('updateMetadata', 'suggest', 'createTrial', 'createStudy', 'checkEarlyStop'):
+          for st_ in after['studies']:
+            for where, md in [('study %s/%s' % (st_['owner'], st_['sid']), st_.get('md', []))] + [
+                ('trial %d of %s/%s' % (t_['id'], st_['owner'], st_['sid']), t_.get('md', [])) for t_ in st_['trials']]:
+              keys = [(e[0], e[1]) for e in md]
+              if len(keys) != len(set(keys)):
+                dup = sorted(set(k for k in keys if keys.count(k) > 1))
+                c.prop_fail('stored-metadata-duplicate-key:' + rq['op'],
+                            'after %s the stored metadata of %s holds more than one entry for %s (backend %s): readers that take the first match see a stale value' % (rq['op'], where, dup[:3], be),
+                            {'backend': be, 'history': h[:i + 1], 'where': where, 'metadata': md})
         exp = expected_error(prev, rq)
         if exp is not None:
           got = (resp.get('code'), resp.get('via')) if resp.get('k') == 'err' else None
